@@ -51,7 +51,7 @@ let n_of_bz z = if BZ.sign z = 0 then M.N0 else M.Npos (pos_of_bz z)
 let bz_of_n = function M.N0 -> BZ.zero | M.Npos p -> bz_of_pos p
 let z_of_bz z = if BZ.sign z = 0 then M.Z0 else if BZ.sign z > 0 then M.Zpos (pos_of_bz z) else M.Zneg (pos_of_bz (BZ.neg z))
 let bz_of_z = function M.Z0 -> BZ.zero | M.Zpos p -> bz_of_pos p | M.Zneg p -> BZ.neg (bz_of_pos p)
-let rec nat_of_int (i : int) : M.nat = if i <= 0 then M.O else M.S (nat_of_int (i - 1))
+let nat_of_int (i : int) : M.nat = let rec go acc k = if k <= 0 then acc else go (M.S acc) (k - 1) in go M.O i
 let rec int_of_nat = function M.O -> 0 | M.S n -> 1 + int_of_nat n
 
 let to_n = function A s -> n_of_bz (BZ.of_string s) | _ -> raise (Parse_error "expected N")
